@@ -35,7 +35,9 @@ CONSTANTS Profiles,     \* set of profile names explored in this run (each profi
 \* characters
 \* ------------------------------------------------------------------------------------------------------------
 WsSyms     == {"SP", "TAB", "LF", "CR"}
-NonChars10 == {"U0", "U1", "UB", "UFFFE", "UFFFF", "UD800", "UDFFF", "U110000"}   \* not matched by production [2] Char
+\* not matched by production [2] Char.  U110000 = just above the Unicode range; U100000041 = 2^32 + 0x41 and UHUGE = 2^64 + 0x41
+\* (numbers that wrap to a legal character in 32- or 64-bit arithmetic; as character references they are spelled in full)
+NonChars10 == {"U0", "U1", "UB", "UFFFE", "UFFFF", "UD800", "UDFFF", "U110000", "U100000041", "UHUGE"}
 IsChar(c)  == c \notin NonChars10
 Predef     == {"<", "&", ">", "'", "Q"}          \* lt amp gt apos quot ("Q" stands for the double quote)
 
@@ -571,8 +573,12 @@ AlphaProlog ==
   \cup {BAD(k) : k \in {"xd-noversion", "xd-order", "xd-badsa", "xd-unterminated", "xd-case", "doctype-nospace", "doctype-lower",
                         "eof-in-doctype", "eof-in-comment", "eof-in-pi", "bang-unknown", "trunc-utf8", "utf8-ff", "utf8-cont",
                         "utf8-overlong", "pi-nospace", "comment-3dash"}}
+\* byte sequences that are illegal in the document's encoding (UTF-8): enc-<context>-<variant>; context tx = character data,
+\* att = attribute value, cm = comment; variant cN-K = N-byte sequence whose K-th byte is not a continuation byte, overN = overlong
+\* N-byte form, surr = encoded surrogate, above = beyond U+10FFFF (byte tables in the renderer)
+EncodingBad == {"enc-tx-c2-2", "enc-tx-c3-2", "enc-tx-c3-3", "enc-tx-c4-2", "enc-tx-c4-3", "enc-tx-c4-4", "enc-tx-over2", "enc-tx-over3", "enc-tx-over4", "enc-tx-surr", "enc-tx-above", "enc-att-c2-2", "enc-att-c3-2", "enc-att-c3-3", "enc-att-c4-2", "enc-att-c4-3", "enc-att-c4-4", "enc-att-over2", "enc-att-over3", "enc-att-over4", "enc-att-surr", "enc-att-above", "enc-cm-c2-2", "enc-cm-c3-2", "enc-cm-c3-3", "enc-cm-c4-2", "enc-cm-c4-3", "enc-cm-c4-4", "enc-cm-over2", "enc-cm-over3", "enc-cm-over4", "enc-cm-surr", "enc-cm-above"}
 TextPieces == {Lit(c) : c \in {"x", "SP", "TAB", "LF", "CR", "]", ">", "UE9", "U20AC", "U10000", "U1", "UFFFE", "UD800", "<"}}
-              \cup {CRef(c) : c \in {"x", "SP", "LF", "CR", "<", "&", "U10000", "U0", "UFFFF", "U110000", "UD800"}}
+              \cup {CRef(c) : c \in {"x", "SP", "LF", "CR", "<", "&", "U10000", "U0", "UFFFF", "U110000", "UD800", "U100000041", "UHUGE"}}
               \cup {PRef(c) : c \in {"<", "&", ">", "Q"}}
 CorePieces == {Lit("x"), Lit("]"), Lit(">"), Lit("CR"), Lit("LF"), CRef("CR"), PRef("<")}
 AlphaLexis ==
@@ -585,8 +591,10 @@ AlphaLexis ==
   \cup {BAD(k) : k \in {"amp-alone", "cref-unterminated", "cref-nodigits", "cref-badhex", "cref-upperx", "eref-unterminated",
                         "eof-in-cdata", "cdata-lower", "eof-in-comment", "eof-in-pi", "lt-space", "lt-bang", "comment-3dash",
                         "utf8-ff", "utf8-cont", "utf8-overlong", "trunc-utf8", "undeclared-ref"}}
+  \cup {BAD(k) : k \in EncodingBad}
 AttrNames == {"x", "y", "p:x", "q:x", "xmlns:p", "xmlns:q"}
-AttrPieces == {Lit(c) : c \in {"x", "SP", "LF", "'", ">", "<", "U1"}} \cup {CRef(c) : c \in {"SP", "LF", "<", "U0"}} \cup {PRef(c) : c \in {"<", "Q"}}
+AttrPieces == {Lit(c) : c \in {"x", "SP", "LF", "'", ">", "<", "U1"}} \cup {CRef(c) : c \in {"SP", "LF", "<", "U0", "U110000", "U100000041", "UHUGE"}}
+              \cup {PRef(c) : c \in {"<", "Q"}}
 AttrVals == SeqsLen(AttrPieces, 0, 1) \cup {<<Lit("x"), Lit("SP")>>, <<Lit("u")>>, <<Lit("v")>>}
 NsVals == {<<Lit("u")>>, <<Lit("v")>>, <<>>}
 OneAttr == {<<n, v>> : n \in {"x", "y", "p:x"}, v \in AttrVals} \cup {<<n, v>> : n \in {"xmlns:p", "xmlns:q"}, v \in NsVals}
